@@ -39,9 +39,9 @@ var refParams map[string][][2]string
 var (
 	canonType  = map[*types.TypeName]string{} // renamed type -> reference type name
 	typeRepl   [][2]string                    // textual replacements current -> reference ("pkg/path.Cur", "pkg/path.Ref") and short forms
-	canonFn    = map[*ssa.Function]string{} // renamed function -> reference name
-	canonByRef = map[string]*ssa.Function{} // reference name -> renamed function
-	canonField = map[*types.Var]string{}    // renamed field -> reference field name
+	canonFn    = map[*ssa.Function]string{}   // renamed function -> reference name
+	canonByRef = map[string]*ssa.Function{}   // reference name -> renamed function
+	canonField = map[*types.Var]string{}      // renamed field -> reference field name
 	canonNotes []string
 )
 
